@@ -94,7 +94,9 @@ pub fn into_bytes_incircuit(
         BigUint(big) => {
             let mut bytes = std_lib.biguint().to_le_bytes(layouter, big)?;
 
-            bytes[n..]
+            // If the limbs hold fewer than n bytes there is nothing to constrain
+            // to zero; the output is padded below.
+            bytes[n.min(bytes.len())..]
                 .iter()
                 .try_for_each(|b| std_lib.assert_equal_to_fixed(layouter, b, 0u8))?;
 
